@@ -66,7 +66,11 @@ static std::string structural(const draco::PointCloud &pc, const draco::Mesh *m)
     if (att->is_mapping_identity() && att->size() < pc.num_points()) return "identity-mapped attribute has fewer values than points";
     for (uint32_t p = 0; p < pc.num_points(); ++p)
       if (att->mapped_index(PointIndex(p)).value() >= att->size()) return "point maps to a value that does not exist";
-    if (static_cast<int64_t>(att->size()) * att->byte_stride() > static_cast<int64_t>(att->buffer()->data_size())) return "attribute buffer too small";
+    if (att->buffer() == nullptr) {
+      if (att->size() != 0) return "attribute without a buffer reports values";
+    } else if (static_cast<int64_t>(att->size()) * att->byte_stride() > static_cast<int64_t>(att->buffer()->data_size())) {
+      return "attribute buffer too small";
+    }
   }
   if (m)
     for (uint32_t f = 0; f < m->num_faces(); ++f)
@@ -83,6 +87,7 @@ static bool dedup_supported(const draco::PointAttribute &a) {
 }
 // after de-duplication: no two stored values bit-identical, no two points with all value indices equal
 static std::string dedup_post(const draco::PointCloud &pc) {
+  if (pc.num_points() == 0) return "";  // nothing is de-duplicated in a geometry without points
   for (int a = 0; a < pc.num_attributes(); ++a) {
     const draco::PointAttribute *att = pc.attribute(a);
     if (!dedup_supported(*att)) continue;
@@ -244,10 +249,12 @@ static std::string check_cleanup(const C14Spec &s) {
   std::vector<char> is_deg(n), has_twin(n);
   {
     std::map<std::array<uint32_t, 3>, int> cnt;
-    for (size_t i = 0; i < n; ++i) cnt[canon_idx(pos_idx[i])]++;
+    // a face counts as a removable duplicate when an earlier face has the same position indices: the first face of
+    // such a group always stays (the tool keeps first occurrences), which also guarantees that a removed duplicate
+    // has a kept twin
     for (size_t i = 0; i < n; ++i) {
       is_deg[i] = pos_idx[i][0] == pos_idx[i][1] || pos_idx[i][1] == pos_idx[i][2] || pos_idx[i][0] == pos_idx[i][2];
-      has_twin[i] = cnt[canon_idx(pos_idx[i])] > 1;
+      has_twin[i] = cnt[canon_idx(pos_idx[i])]++ > 0;
     }
   }
   auto must_skip = [&](size_t i) { return opt.remove_degenerated_faces && is_deg[i]; };
@@ -284,8 +291,16 @@ static std::string check_cleanup(const C14Spec &s) {
     if (kept[i]) continue;
     ++removed;
     const bool deg = pos_idx[i][0] == pos_idx[i][1] || pos_idx[i][1] == pos_idx[i][2] || pos_idx[i][0] == pos_idx[i][2];
-    const bool dup = kept_pos.count(canon_idx(pos_idx[i])) != 0;
+    const bool dup = has_twin[i] != 0;
+    (void)kept_pos;
     if (!((deg && opt.remove_degenerated_faces) || (dup && opt.remove_duplicate_faces))) {
+      if (*env("VERIF_TRACE")) {
+        for (size_t q = 0; q < before.size(); ++q)
+          fprintf(stderr, "face %zu points (%u,%u,%u) pos (%u,%u,%u) kept=%d key=%s\n", q, pt_idx[q][0], pt_idx[q][1], pt_idx[q][2], pos_idx[q][0], pos_idx[q][1],
+                  pos_idx[q][2], kept[q], hex(reinterpret_cast<const uint8_t *>(cb[q][0].data()), cb[q][0].size()).c_str());
+        for (uint32_t f = 0; f < m->num_faces(); ++f)
+          fprintf(stderr, "out face %u points (%u,%u,%u)\n", f, m->face(FaceIndex(f))[0].value(), m->face(FaceIndex(f))[1].value(), m->face(FaceIndex(f))[2].value());
+      }
       return "cleanup: face " + std::to_string(i) + " was removed although it is neither degenerate nor a duplicate of a kept face (under the enabled options)";
     }
   }
